@@ -64,8 +64,14 @@ def gen_case(rng, tier):
         # times of day: midnight, an odd one, and "round" ones (whole hours, quarter days, 00:07:12 = 1/200 day) — a vector
         # whose every time is round is still a vector of datetimes, not of dates
         tpool = TIMES[:2] + ROUND_TIMES if rng.random() < 0.6 else ROUND_TIMES
+        subsec = unit == "us" and rng.random() < 0.2
+        if subsec:
+            # every element within the first second after midnight: hour, minute and second are all 0, the time is not
+            tpool = ["T00:00:00.500000", "T00:00:00.000001", "T00:00:00.500000"]
         vals = [None if rng.random() < 0.25 else (rng.choice(DATES) + ("" if unit == "D" else rng.choice(tpool))) for _ in range(n)]
         fmt = rng.choice(FORMATS_D if unit == "D" else FORMATS_T)
+        if subsec:
+            fmt = "%Y-%m-%d %H:%M:%S.%f"
         # years below 1000: glibc's %Y does not pad them, so strptime cannot read them back; to_string must still give
         # exactly what datetime.strftime gives for them ("tostring_only": the inverse is not asked for)
         early = any(v is not None and v[:4] < "1000" for v in vals)
